@@ -33,7 +33,63 @@ LABEL_ALIASES = {
 
 
 def plan(tier, seed):
-    return [{'year': y} for y in (2021, 2022, 2023)]
+    n = 3 if tier == 'quick' else 60
+    return [{'year': y} for y in (2021, 2022, 2023)] + [{'kind': 'realfills', 'year': y, 'n': n} for y in (2021, 2022, 2023)]
+
+
+def run_realfills(spec, tier, seed):
+    """Exclusive groups whose boxes are driven by several lines (NC filing status
+    1-5, yes/no pairs) can only be judged on coherent values: fill real solved
+    returns and look at what is actually sent to pdftk."""
+    from hv import hx, scen, pdfspec, pdfdrive
+    from hv.monitors.c19 import solution_as_cli
+    res = Result()
+    year = spec['year']
+    fams = ['F8', 'F8', 'F1', 'F3', 'F0', 'F2', 'F4', 'F5', 'F6', 'F9', 'F10']
+    done = 0
+    k = 0
+    while done < spec['n'] * 4 and k < spec['n'] * 12:
+        fam = fams[k % len(fams)]
+        p = scen.Persona(year, fam, f'c18real:{seed}:{k}')
+        k += 1
+        out = scen.solve_persona(p)
+        if out.exc is not None or out.ret is not True:
+            continue
+        done += 1
+        r = pdfdrive.fill(solution_as_cli(out, year), year)
+        res.evaluations += 1
+        res.count('real_fills')
+        if r.exc is not None:
+            continue
+        for call in r.calls:
+            if call['op'] != 'fill_form':
+                continue
+            tpl = pdfspec.parse(call['argv'][0])
+            try:
+                pairs = pdfdrive.parse_fdf(call['fdf_bytes'])
+            except pdfdrive.FDFSyntaxError:
+                continue
+            on = {}
+            for t, v in pairs:
+                tf = tpl.fields.get(t)
+                res.count('fdf_entries_joined')
+                if tf is None:
+                    res.violation(f'C18|{year}|{os.path.basename(call["argv"][0])}|fdf-field-not-in-template|{t.split(".")[-1]}', f'{year} real fill: {t} not in the template', {'year': year, 'persona': p.describe()})
+                    continue
+                if tf.kind == 'button' and v not in ('Off', ''):      # '' = a line the solution does not have: the box is left alone
+                    if v not in tf.on_values:
+                        res.violation(f'C18|{year}|{os.path.basename(call["argv"][0])}|fdf-export-value|{t.split(".")[-1]}', f'{year} real fill: {t} set to {v!r}, template exports {tf.on_values}', {'year': year, 'persona': p.describe()})
+                    g = tf.group or nc_group(t)
+                    if g:
+                        on.setdefault(g, []).append(t.split('.')[-1])
+                if tf.kind == 'text' and tf.max_len is not None and len(v) > tf.max_len:
+                    res.violation(f'C18|{year}|{os.path.basename(call["argv"][0])}|fdf-too-long|{t.split(".")[-1]}', f'{year} real fill: {len(v)} characters into {t} (limit {tf.max_len})', {'year': year, 'persona': p.describe()})
+            for g, boxes in on.items():
+                res.count('real_groups_checked')
+                res.distinct.add(f'{year}|group|{os.path.basename(call["argv"][0])}|{g.split(".")[-1]}')
+                if len(boxes) > 1:
+                    res.violation(f'C18|{year}|{os.path.basename(call["argv"][0])}|exclusive-group-two-on-in-fill|{g.split(".")[-1]}', f'{year} {fam} {p.key}: boxes {boxes} of one exclusive group are on together', {'year': year, 'persona': p.describe()})
+    return res
 
 
 class Truthy(object):
@@ -103,6 +159,8 @@ def typed_values(fld, hx):
 
 
 def run_shard(spec, tier, seed):
+    if spec.get('kind') == 'realfills':
+        return run_realfills(spec, tier, seed)
     from hv import hx, pdfspec, pdfdrive
     F, PF = hx.fields, hx.pdf_fields
     year = spec['year']
@@ -306,7 +364,7 @@ def run_shard(spec, tier, seed):
                 if tf is None:
                     V(os.path.basename(tplpath), f'fdf-field-not-in-template|{t.split(".")[-1]}', f'FDF entry {t!r} is not a field of {os.path.basename(tplpath)}')
                     continue
-                if tf.kind == 'button' and v not in tf.on_values + ['Off']:
+                if tf.kind == 'button' and v not in tf.on_values + ['Off', '']:
                     V(os.path.basename(tplpath), f'fdf-export-value|{t.split(".")[-1]}', f'FDF sets {t} to {v!r}; template exports {tf.on_values}')
                 if tf.kind == 'text' and tf.max_len is not None and len(v) > tf.max_len:
                     V(os.path.basename(tplpath), f'fdf-too-long|{t.split(".")[-1]}', f'FDF writes {len(v)} characters into {t} (limit {tf.max_len})')
@@ -371,6 +429,8 @@ def finalize(res, tier):
     c = res.counters
     if c.get('mappings', 0) < 1600:
         res.inconclusive.append(f'only {c.get("mappings", 0)} mappings observed')
+    if c.get('real_groups_checked', 0) < 20:
+        res.inconclusive.append(f'only {c.get("real_groups_checked", 0)} exclusive groups seen in fills of real returns')
     if c.get('fdf_entries_joined', 0) < 1600:
         res.inconclusive.append(f'only {c.get("fdf_entries_joined", 0)} FDF entries observed at the pdftk boundary')
     return {'exhaustive': True, 'label_share': f'{c.get("mappings_label_checked", 0)} label-checked / {c.get("mappings_unlabelled", 0)} unlabelled / {c.get("template_labels_out_of_order_ignored", 0)} template labels ignored'}
